@@ -423,7 +423,7 @@ func buildAlphabet() {
 	bwd(0, "b", []byte("a"))
 	bwd(0, "a", []byte("ab"))
 	bwd(0, "x", b32)
-	bwd(0, "a", u64(0))                  // "a" u64(8) u64(0) …
+	bwd(0, "a", u64(0))                        // "a" u64(8) u64(0) …
 	bwd(0, string(cat("a", u64(8))), []byte{}) // … equals this one if the domain length is not written
 	// pointer form, as used by internal/round and internal/ot: same meaning as the value form
 	add(0, "BytesWithDomain", "ptr:a/b", fmt.Sprintf("domain=%s,data=%s", hx([]byte("a")), hx([]byte("b"))), func() interface{} {
